@@ -364,3 +364,16 @@ pub fn twin_esis(k: u32, n: usize, pick: &mut dyn FnMut(usize) -> usize) -> Vec<
     }
     out
 }
+
+/// block sizes (table values K') in [lo, hi] whose code parameters sit on a 64-bit word boundary
+/// (P, W or L a multiple of 64): the places where bit-packed matrix code changes its word count
+pub fn boundary_ks(lo: u32, hi: u32) -> Vec<u32> {
+    T2.iter()
+        .filter(|r| r.0 >= lo && r.0 <= hi)
+        .filter(|r| {
+            let pr = params(r.0);
+            pr.p % 64 == 0 || pr.w % 64 == 0 || pr.l % 64 == 0
+        })
+        .map(|r| r.0)
+        .collect()
+}
